@@ -428,6 +428,44 @@ static void m_arr_del(struct st *s, int pid, int idx, int n)
 		release(s, gone[k]);
 }
 
+/* Environment deviation at the judged step: the transfer operations are first attempted with their
+ * first, then their second allocation failing.  A failure reported under such a fault must leave
+ * everything as it was (no destruction callback, every held node intact, the value still the
+ * caller's); the operation is then repeated without a fault.  If the call succeeds anyway (no
+ * allocation needed, or the failure was absorbed) it simply counts as the operation. */
+static int opt_fault_probe = 1;
+#define FAULT_PROBED(rcvar, CALL)                                                                                      \
+	do                                                                                                                 \
+	{                                                                                                                  \
+		int done_ = 0;                                                                                                 \
+		if (check && opt_fault_probe)                                                                                  \
+			for (int kf_ = 1; kf_ <= 2 && !done_ && !s->dead; kf_++)                                                   \
+			{                                                                                                          \
+				int ncbp_ = s->ncb;                                                                                    \
+				vf_fail_plan(vf_alloc_calls() + kf_, 0);                                                               \
+				rcvar = (CALL);                                                                                        \
+				int fired_ = vf_fail_fired();                                                                          \
+				vf_fail_plan(0, 0);                                                                                    \
+				if (rcvar == 0)                                                                                        \
+				{                                                                                                      \
+					done_ = 1;                                                                                         \
+					break;                                                                                             \
+				}                                                                                                      \
+				if (!fired_)                                                                                           \
+					break;                                                                                             \
+				MC_COUNT("fault_probes", 1);                                                                           \
+				char w2_[200];                                                                                         \
+				snprintf(w2_, sizeof w2_, "%s failing because allocation %d of the call fails", what, kf_);            \
+				mc_phase = "fault-probe";                                                                              \
+				check_after(s, w2_, ncbp_);                                                                            \
+				mc_phase = "op";                                                                                       \
+			}                                                                                                          \
+		if (s->dead)                                                                                                   \
+			return;                                                                                                    \
+		if (!done_)                                                                                                    \
+			rcvar = (CALL);                                                                                            \
+	} while (0)
+
 static void apply(void *vs, int op, int check)
 {
 	struct st *s = vs;
@@ -480,7 +518,8 @@ static void apply(void *vs, int op, int check)
 	{
 		char key = (char)('a' + x);
 		char ks[2] = {key, 0};
-		int rc = json_object_object_add(rp, ks, rc_);
+		int rc;
+		FAULT_PROBED(rc, json_object_object_add(rp, ks, rc_));
 		if (rc != 0)
 		{
 			fail(s, "add-failed", "%s returned %d", what, rc);
@@ -523,7 +562,8 @@ static void apply(void *vs, int op, int check)
 	}
 	case O_ARR_ADD:
 	{
-		int rc = json_object_array_add(rp, rc_);
+		int rc;
+		FAULT_PROBED(rc, json_object_array_add(rp, rc_));
 		if (rc != 0)
 		{
 			fail(s, "add-failed", "%s returned %d", what, rc);
@@ -537,7 +577,8 @@ static void apply(void *vs, int op, int check)
 	case O_ARR_PUT:
 	case O_ARR_INS:
 	{
-		int rc = k == O_ARR_PUT ? json_object_array_put_idx(rp, (size_t)x, rc_) : json_object_array_insert_idx(rp, (size_t)x, rc_);
+		int rc;
+		FAULT_PROBED(rc, k == O_ARR_PUT ? json_object_array_put_idx(rp, (size_t)x, rc_) : json_object_array_insert_idx(rp, (size_t)x, rc_));
 		if (rc != 0)
 		{
 			fail(s, "add-failed", "%s returned %d", what, rc);
@@ -900,6 +941,10 @@ static void key_rec(struct st *s, int id, int *ren, int *nren, sb_t *o)
 	ren[id] = ++*nren;
 	struct mnode *m = &s->n[id];
 	sb_printf(o, "%c(", m->kind == MK_OBJ ? 'O' : m->kind == MK_ARR ? 'A' : 'I');
+	/* the allocated capacity decides which later calls allocate (and so can fail): states that
+	 * differ in it have different futures under the fault probes and are not merged */
+	if (m->kind == MK_ARR && s->real[id])
+		sb_printf(o, "cap%zu:", json_object_get_array(s->real[id])->size);
 	for (int k = 0; k < m->nk; k++)
 	{
 		sb_putc(o, m->keys[k]);
@@ -925,7 +970,6 @@ static uint64_t key(void *vs)
 			key_rec(s, s->slot_node[i], ren, &nren, &o);
 		sb_putc(&o, ';');
 	}
-	/* array capacity matters for growth paths: include the allocated size of tracked arrays */
 	uint64_t h = mc_hash(o.p, o.n, 31);
 	sb_free(&o);
 	return h;
